@@ -6,16 +6,19 @@ O (direct oracle, real classes only)
   * rejection stream: every single-token deletion and every type-name mutation of valid SML, random strings over the token
     alphabet and over a character alphabet; every parse under a 2 s watchdog (a hang is a violation); a deleted closing bracket or an
     unknown type name must raise
-  * the two laws assumed of the float text (`float(repr(x)) == x` bit for bit; no quote/bracket/whitespace in `repr(x)`) sampled
+  * the two laws assumed of the float text (`float(repr(x)) == x` bit for bit; no quote/bracket/whitespace in `repr(x)`) sampled;
+    `float()` (as `ItemF4/F8._type`) rejects `<`, `>`, `.`, `''`, `>.` and accepts no string containing a bracket (literals + sample)
 C (correspondence with the Lean model through the driver, domain `sml`)
   * print: `toSml` vs `to_sml()` on every generated item, with the defect flags the implementation currently shows
   * parse: `tokenize`+`readItem` vs `Item.from_sml` on every printed text and on the whole rejection stream (item or error kind, tokens left)
   * `pyInt` vs `int(text)` / `int(text, 0)` on a literal alphabet; `tokenize` vs `SMLParser._tokens`
 
-Recorded findings (DESIGN §6 F-19, F-20), keyed by the *minimised* failing item:
+Former findings (DESIGN §6 F-19, F-20; repaired by fix commits b87686c, 34e8c21 — no `open:` line any more, so they are NEW violations if
+they reappear), still keyed by the *minimised* failing item so that a revert is named precisely:
   c15-quote          an A or J item whose text contains `"`               (the quote is printed inside a quoted run)
   c15-jis8-nonascii  a J item containing one of the bytes 5c, 7e, a1..df  (hex code of the decoded character, not of the byte)
-Any other failing item is reported under its own class and is a violation.
+The two witnesses are replayed first; the model is driven with the defect flags the implementation shows (none on the current tree).
+Any other failing item is reported under its own class.
 """
 from __future__ import annotations
 
@@ -686,6 +689,25 @@ def main():
                         {"item": f"(F8 {dbits(x):016x})", "text": s})
     res.evaluations += n_law
     res.bump("float_law_samples", "doubles", n_law)
+    # FloatRejectsBrackets (hypothesis of C15_reject_unclosed / C15_reject_deleted_closer): the reader the parser uses for F4/F8 tokens
+    # (`cls._type(token)`) raises on `<` and on every list terminator; on a sample of token-alphabet strings, whatever it accepts is
+    # neither of those nor contains a bracket character
+    n_rej = 0
+    for cls in (ItemF4, ItemF8):
+        reader = cls._type
+        sample = ["<", ">", ".", "", ">."] + TOKEN_ALPHABET + ["<1", "1>", "[1]", "1.", ".1", "..", ">>", "<>", " . ", " < ", "\t>", "1e5>", "-.", "+.", "._", "0.", ".0"] \
+            + [random_char_text(rng)[:6] for _ in range(3000 if big else 600)]
+        for t in sample:
+            n_rej += 1
+            try:
+                reader(t)
+                accepted = True
+            except (ValueError, OverflowError):
+                accepted = False
+            if accepted and (t in ("<", ">", ".", "", ">.") or any(ch in "<>[]" for ch in t)):
+                res.violate("float-rejects-law", f"{cls.__name__}._type accepts a bracket / terminator token", {"text": t, "kind": "float-accepts"})
+            res.bump("float_rejects_samples", "accepted" if accepted else "rejected")
+    res.evaluations += n_rej
 
     res.dump(a.out)
 
